@@ -47,6 +47,8 @@ for seed, m in rows:
         n_missed += 1
     lines.append(f"| {seed} | {m.get('property')} | {what} ({files}) | {out} |")
 table = "\n".join(lines)
+n_reg = sum(1 for _, m in rows if m.get("regression"))
+n_reg_ok = sum(1 for _, m in rows if m.get("regression", {}).get("outcome", "").startswith("violation"))
 print(table)
 print(f"\ncaught {n_caught}, missed {n_missed}, of {len(rows)}")
 if "--design" in sys.argv:
@@ -69,6 +71,10 @@ after that work.  Seeds that stay missed are the honest boundary of this techniq
 {table}
 
 Totals: {n_caught} caught, {n_missed} missed, {len(rows)} seeds.
+
+Regression at the end of the build: {n_reg} of the caught seeds (all but the two that need the 35 GB one-point
+database harness, which were run once against the final harness) were run again against the final state of /verif
+(`seeded/*/meta.json: regression`); {n_reg_ok} were reported again.
 """
     open(p, "w").write(head + body)
     print("DESIGN.md section 14 rewritten")
